@@ -217,21 +217,24 @@ unsafe impl<P: Send> Send for Tables<P> {}
 /// longer owns -- a dangling reference into a dropped future -- is detected without
 /// relying on where the access hooks sit in the library's source.
 pub struct WakerData {
-    wid: u32,
+    /// runtime waker ids of the two "faces" (vtable A / vtable B) of this data pointer
+    wid_a: u32,
+    wid_b: std::sync::atomic::AtomicU32,
     owner: usize,
     total: std::sync::atomic::AtomicI32,
-    harness_alive: std::sync::atomic::AtomicBool,
+    harness_count: std::sync::atomic::AtomicI32,
 }
 use std::sync::atomic::Ordering as AO;
 
 fn check_use(a: &WakerData, what: &str) {
-    let kanal_held = a.total.load(AO::SeqCst) - a.harness_alive.load(AO::SeqCst) as i32;
-    let by_owner_in_poll = a.harness_alive.load(AO::SeqCst) && rt::vid() == a.owner;
+    let h = a.harness_count.load(AO::SeqCst);
+    let kanal_held = a.total.load(AO::SeqCst) - h;
+    let by_owner_in_poll = h > 0 && rt::vid() == a.owner;
     if kanal_held < 1 && !by_owner_in_poll {
         let d = format!(
             "{} on waker {} by thread {} although the library holds no live instance of it (the future that stored it is gone or has replaced it)",
             what,
-            a.wid,
+            a.wid_a,
             rt::vid() as isize
         );
         exec(|e| {
@@ -248,18 +251,38 @@ unsafe fn w_clone(p: *const ()) -> RawWaker {
     Arc::increment_strong_count(p as *const WakerData);
     RawWaker::new(p, &VTABLE)
 }
+unsafe fn w_clone_b(p: *const ()) -> RawWaker {
+    let a = &*(p as *const WakerData);
+    check_use(a, "clone");
+    a.total.fetch_add(1, AO::SeqCst);
+    Arc::increment_strong_count(p as *const WakerData);
+    RawWaker::new(p, &VTABLE_B)
+}
 unsafe fn w_wake(p: *const ()) {
     let a = Arc::from_raw(p as *const WakerData);
     rt::waker_point();
     check_use(&a, "wake");
-    rt::waker_wake(a.wid);
+    rt::waker_wake(a.wid_a);
+    a.total.fetch_sub(1, AO::SeqCst);
+}
+unsafe fn w_wake_b(p: *const ()) {
+    let a = Arc::from_raw(p as *const WakerData);
+    rt::waker_point();
+    check_use(&a, "wake");
+    rt::waker_wake(a.wid_b.load(AO::SeqCst));
     a.total.fetch_sub(1, AO::SeqCst);
 }
 unsafe fn w_wake_by_ref(p: *const ()) {
     let a = &*(p as *const WakerData);
     rt::waker_point();
     check_use(a, "wake_by_ref");
-    rt::waker_wake(a.wid);
+    rt::waker_wake(a.wid_a);
+}
+unsafe fn w_wake_by_ref_b(p: *const ()) {
+    let a = &*(p as *const WakerData);
+    rt::waker_point();
+    check_use(a, "wake_by_ref");
+    rt::waker_wake(a.wid_b.load(AO::SeqCst));
 }
 unsafe fn w_drop(p: *const ()) {
     let a = Arc::from_raw(p as *const WakerData);
@@ -267,11 +290,15 @@ unsafe fn w_drop(p: *const ()) {
     drop(a);
 }
 static VTABLE: RawWakerVTable = RawWakerVTable::new(w_clone, w_wake, w_wake_by_ref, w_drop);
+/// Same behaviour, different identity: a waker built on this vtable over the same data
+/// pointer is a *different* waker for `Waker::will_wake`.
+static VTABLE_B: RawWakerVTable = RawWakerVTable::new(w_clone_b, w_wake_b, w_wake_by_ref_b, w_drop);
 
 /// The harness' own instance; dropping it is not a library action.
 pub struct HWaker {
     w: Option<Waker>,
     data: Arc<WakerData>,
+    face_b: bool,
 }
 impl std::ops::Deref for HWaker {
     type Target = Waker;
@@ -281,18 +308,47 @@ impl std::ops::Deref for HWaker {
 }
 impl Drop for HWaker {
     fn drop(&mut self) {
-        self.data.harness_alive.store(false, AO::SeqCst);
+        self.data.harness_count.fetch_sub(1, AO::SeqCst);
         self.w.take();
+    }
+}
+impl HWaker {
+    /// A different waker over the same data pointer (other vtable); returns it with its id.
+    fn sibling(&self) -> (HWaker, u32) {
+        let d = &self.data;
+        let to_b = !self.face_b;
+        let wid = if to_b {
+            let mut w = d.wid_b.load(AO::SeqCst);
+            if w == u32::MAX {
+                w = rt::new_waker();
+                d.wid_b.store(w, AO::SeqCst);
+            }
+            w
+        } else {
+            d.wid_a
+        };
+        d.total.fetch_add(1, AO::SeqCst);
+        d.harness_count.fetch_add(1, AO::SeqCst);
+        let raw = RawWaker::new(Arc::into_raw(d.clone()) as *const (), if to_b { &VTABLE_B } else { &VTABLE });
+        (
+            HWaker {
+                w: Some(unsafe { Waker::from_raw(raw) }),
+                data: d.clone(),
+                face_b: to_b,
+            },
+            wid,
+        )
     }
 }
 
 fn make_waker() -> (HWaker, u32) {
     let wid = rt::new_waker();
     let a = Arc::new(WakerData {
-        wid,
+        wid_a: wid,
+        wid_b: std::sync::atomic::AtomicU32::new(u32::MAX),
         owner: rt::vid(),
         total: std::sync::atomic::AtomicI32::new(1),
-        harness_alive: std::sync::atomic::AtomicBool::new(true),
+        harness_count: std::sync::atomic::AtomicI32::new(1),
     });
     // kept alive until the end of the execution so that a dangling use can be examined
     exec(|e| e.waker_keepalive.push(a.clone()));
@@ -301,6 +357,7 @@ fn make_waker() -> (HWaker, u32) {
         HWaker {
             w: Some(unsafe { Waker::from_raw(raw) }),
             data: a,
+            face_b: false,
         },
         wid,
     )
@@ -552,6 +609,16 @@ fn drive<T>(
                 wid = id2;
                 upd(gi, |o| o.wakers.push(wid));
                 p.fired_seen = 0;
+                if let Poll::Ready(v) = p.do_poll(&wk, wid) {
+                    done = Some(v);
+                }
+            }
+            Step::PollSibling => {
+                let (w2, id2) = wk.sibling();
+                wk = w2;
+                wid = id2;
+                upd(gi, |o| o.wakers.push(wid));
+                p.fired_seen = rt::waker_fired(wid);
                 if let Poll::Ready(v) = p.do_poll(&wk, wid) {
                     done = Some(v);
                 }
